@@ -1028,6 +1028,76 @@ fn c07_case(ctx: &Ctx, st: &mut C07Stats, path: &[Vec<u8>], multi: bool, raw0: &
     }
 }
 
+/// Segments at and beyond the 16-bit length limit of the encoding (0xFFFF, 0x10000, 0x10003
+/// bytes), alone and below a short first segment, single- and multi-level: opening such a view may
+/// be refused (a panic: there is no encoding for it), but a view that does open must be a window of
+/// its own - a value written through it is seen by no view of an unrelated path, and lands under
+/// a raw key that starts with the encoding of the short first segment only if that segment is
+/// part of the path.
+fn long_segment_stage(ctx: &Ctx) -> u64 {
+    let mut n = 0u64;
+    for len in [0xFFFFusize, 0x10000, 0x10003] {
+        for fill in [b'a', 0x07u8] {
+            let mut seg = b"abc".to_vec();
+            seg.extend(std::iter::repeat(fill).take(len - 3));
+            for (shape, path, multi) in [("single-level", vec![seg.clone()], false), ("multi-level, one segment", vec![seg.clone()], true), ("multi-level, second segment", vec![b"top".to_vec(), seg.clone()], true)] {
+                n += 1;
+                let case = json!({"engine": "kv-prefix", "stage": "long-segment", "segment_length": len, "fill_byte": fill, "shape": shape});
+                let mut app = app_with(&Map::new());
+                let opened = catch(|| {
+                    let mut v = view_mut(&mut app, &path, multi);
+                    v.set(b"k", b"v");
+                });
+                if opened.is_err() {
+                    // refused: nothing may have been written
+                    if !app.storage().data.is_empty() {
+                        ctx.violation("c07:long-segment:refused-view-wrote", json!({"case": case, "raw_keys": app.storage().data.len()}));
+                    }
+                    continue;
+                }
+                if len > 0xFFFF {
+                    // no two-byte length can describe the segment: whatever key was written, unrelated views must not see it
+                }
+                let raw: Vec<Vec<u8>> = app.storage().data.keys().cloned().collect();
+                if raw.len() != 1 {
+                    ctx.violation("c07:long-segment:not-exactly-one-raw-key", json!({"case": case, "raw_keys": raw.len()}));
+                    continue;
+                }
+                // unrelated paths: every short prefix of the segment as a path of its own, the empty
+                // segment, and (below "top") the same
+                let mut unrelated: Vec<(Vec<Vec<u8>>, bool)> = vec![];
+                for cut in [0usize, 1, 2, 3, 4] {
+                    let short = seg[..cut].to_vec();
+                    if path.len() == 1 {
+                        unrelated.push((vec![short.clone()], false));
+                        unrelated.push((vec![short.clone()], true));
+                        unrelated.push((vec![short.clone(), vec![]], true));
+                    } else {
+                        unrelated.push((vec![b"top".to_vec(), short.clone()], true));
+                        unrelated.push((vec![short.clone()], true));
+                    }
+                }
+                for (q, qmulti) in &unrelated {
+                    n += 1;
+                    let seen: Vec<(Vec<u8>, Vec<u8>)> = match catch(|| view(&app, q, *qmulti).range(None, None, Order::Ascending).collect::<Vec<_>>()) {
+                        Ok(v) => v,
+                        Err(_) => continue,
+                    };
+                    if !seen.is_empty() {
+                        ctx.violation("c07:long-segment:visible-in-unrelated-view", json!({"case": case, "unrelated_path": path_json(q), "unrelated_multi": qmulti, "entries_seen": seen.len(), "first_key_length": seen[0].0.len()}));
+                    }
+                }
+                // and the view reads back its own value
+                let back = catch(|| view(&app, &path, multi).get(b"k"));
+                if back != Ok(Some(b"v".to_vec())) {
+                    ctx.violation("c07:long-segment:own-value-lost", json!({"case": case}));
+                }
+            }
+        }
+    }
+    n
+}
+
 pub fn run_c07(ctx: &Ctx) -> i32 {
     let all_paths = paths(ctx.tier);
     let sampler = Sampler::new(6, ctx.seed);
@@ -1129,12 +1199,15 @@ pub fn run_c07(ctx: &Ctx) -> i32 {
         distinct.extend(st.outcomes);
     });
 
+    let long_checks = long_segment_stage(ctx);
+    evals.fetch_add(long_checks, Relaxed);
     let coverage = json!({
         "states": states.load(Relaxed),
         "transitions": transitions.load(Relaxed),
         "traces_validated_against_impl": states.load(Relaxed),
         "evaluations": evals.load(Relaxed),
         "distinct_nontrivial": distinct.len(),
+        "long_segment_checks": long_checks,
         "rule": "states = (namespace path, raw base content, write sequence) cases run through App::prefixed_*storage* views over a raw store; evaluations = individual get/range/raw-diff comparisons against the prefix-filter model; distinct_nontrivial = distinct range results",
         "exhaustive": true,
         "paths": all_paths.len(),
